@@ -62,3 +62,25 @@ def isInstanceOf (v : Y) (ty : String) : Bool :=
   if ty == "list" then v.isList else if ty == "map" then v.isMap else if ty == "number" then v.toRat?.isSome
   else if ty == "int" then v.intLike?.isSome else if ty == "str" then v.isStr else false
 end NASim.PyRt
+
+namespace NASim.PyRt
+open NASim.Load
+/-- iteration over a YAML value: a list's elements, a string's characters, a dictionary's keys; anything else is not
+iterable (`TypeError`) -/
+def iterY : Y → Option (List Y)
+  | .list l => some l
+  | .str s => some (s.toList.map fun c => .str c.toString)
+  | .map m => some (m.map (·.1))
+  | _ => none
+/-- `len(x)` / `len(set(x))` of such a value (refused for the rest, and `set` for unhashable elements) -/
+def ylen (x : Y) : Option Nat := (iterY x).map List.length
+def ysetLen (x : Y) : Option Nat := (iterY x).bind setLen
+/-- `a == b` inside an `assert` where either side may have been refused -/
+def optEq (a b : Option Nat) : Bool := match a, b with | some x, some y => x == y | _, _ => false
+/-- `addr in self.sensitive_hosts` / `self.sensitive_hosts[addr]` for an evaluated address (keys are pairs of naturals) -/
+def sensHas (m : List ((Nat × Nat) × Rat)) (a : Int × Int) : Bool :=
+  decide (0 ≤ a.1) && decide (0 ≤ a.2) && (m.lookup (a.1.toNat, a.2.toNat)).isSome
+def sensGet (m : List ((Nat × Nat) × Rat)) (a : Int × Int) : Rat := (m.lookup (a.1.toNat, a.2.toNat)).getD 0
+/-- `math.isclose(x, v)` for a YAML value already known to be a number -/
+def iscloseY (x : Y) (v : Rat) : Bool := match x.toRat? with | some q => isclose q v | none => false
+end NASim.PyRt
